@@ -542,6 +542,15 @@ def run_dead_peer(job, sc, flags):
         if not isinstance(e, (OSError, TLSAbruptCloseError, TLSRemoteAlert)):
             v("exception_type", "%s|%s|dead_peer" % (act, type(e).__name__),
               "%s %s raised %r" % (actor, act, e))
+        if rd == "readable" and act != "write" and not (
+                isinstance(e, TLSRemoteAlert) and e.description == desc):
+            # a failed send of a handshake-type record looks for the alert
+            # the peer left behind: it has to come out as that alert
+            v("alert_not_surfaced", "dead_peer|%s|%s" % (
+                act, type(e).__name__),
+              "the peer's fatal alert %d was waiting in the receive buffer "
+              "when %s's %s failed in the transport, but the call raised %r"
+              % (desc, actor, act, e))
         if isinstance(e, TLSRemoteAlert):
             probes["remote_alert_surfaced"] = 1
             if rd in ("lost", "data") or e.description != desc:
